@@ -27,32 +27,38 @@ AstSources ==
     child  |-> <<Extends(LS(NT.t2)), Block("bb", <<T(<<67>>), PrintS(Var("x")), PrintS(Call("parent", <<>>))>>)>>,
     dashes |-> <<T(<<97, 32>>), PrintS(Var("x")), T(<<32, 98>>)>>,
     nonutf |-> <<T(<<-255, 0, 233, 8364>>), PrintS(Var("x")), T(<<-128>>)>>,
+    relinc |-> <<T(<<60>>), Inc(LS(<<46, 47, 112, 97, 114, 116>>)), T(<<62>>)>>,        \* include './part': resolves against the template's own name
     empty  |-> <<>>,
     onebyte |-> <<T(<<97>>)>> ]
 Helper == <<T(<<60>>), Block("bb", <<T(<<68>>)>>), PrintS(Var("x")), T(<<62>>)>>         \* t2: included / extended
 \* ... and big literal sources (pad tokens expanded by the Go side)
 PadSources == [ p65535 |-> 65535, p65536 |-> 65536, p4097 |-> 4097 ] @@ (IF Big THEN [p1m |-> 1048576] ELSE [pnone |-> 0])
 
-Names == [ t |-> <<116>>, acc |-> <<233>>, nul |-> <<0>>, xff |-> <<-255>>, path |-> <<100, 47, 116, 46, 104, 116, 109, 108>>, sp |-> <<97, 32, 98>> ]
+Names == [ home |-> <<112, 97, 103, 101, 115, 47, 104, 111, 109, 101>>,     \* pages/home
+           t |-> <<116>>, acc |-> <<233>>, nul |-> <<0>>, xff |-> <<-255>>, path |-> <<100, 47, 116, 46, 104, 116, 109, 108>>, sp |-> <<97, 32, 98>> ]
 FileSafe == {"t", "acc", "sp"}
 Stamps == {"zero", "minus1", "big", "now"}
 Ctxs == [c1 |-> ("x" :> VS(<<113>>)), c2 |-> EmptyFn]
 
 Cases == {[src |-> s, name |-> n, lm |-> lm, c |-> c] : s \in DOMAIN AstSources, n \in DOMAIN Names, lm \in Stamps, c \in DOMAIN Ctxs}
          \cup {[src |-> s, name |-> n, lm |-> "now", c |-> "c1"] : s \in (DOMAIN PadSources) \ {"pnone"}, n \in {"t", "nul"}}
-Relevant(c) == (c.name \notin {"t"} => c.src \in {"plain", "child", "nonutf", "empty", "p65535", "p65536", "p4097", "p1m"})
+Relevant(c) == (c.name \notin {"t", "home"} => c.src \in {"plain", "child", "nonutf", "empty", "p65535", "p65536", "p4097", "p1m"})
+               /\ (c.name = "home" <=> c.src = "relinc")
                /\ (c.lm # "now" => c.src \in {"plain", "empty"})
 
 IsPadSrc(c) == c.src \in DOMAIN PadSources
 Body(c) == IF IsPadSrc(c) THEN <<T(<<112, PadBase, 113>>)>> ELSE AstSources[c.src]
 \* the reference semantics of the source, registered under a fixed internal name
-Ref(c) == Render(MkW(("main" :> Body(c)) @@ ("t2" :> Helper), {}, {}, NoFault), "main", Ctxs[c.c])
+\* (in the reference the relative name denotes the helper: pages/home includes pages/part)
+RefBody(c) == IF c.src = "relinc" THEN <<T(<<60>>), Inc(LS(NT.t2)), T(<<62>>)>> ELSE Body(c)
+Ref(c) == Render(MkW(("main" :> RefBody(c)) @@ ("t2" :> Helper), {}, {}, NoFault), "main", Ctxs[c.c])
 
 CaseOf(c) ==
     LET ref == Ref(c) IN
     [prop |-> "C16", key |-> ToJson(c),
      tags |-> {"src:" \o c.src, "name:" \o c.name, "lm:" \o c.lm} \cup (IF c.name \in FileSafe THEN {"file"} ELSE {}),
      name |-> Names[c.name], source |-> Source(Body(c), LMin), helper |-> Source(Helper, LMin),
+     helpername |-> IF c.src = "relinc" THEN <<112, 97, 103, 101, 115, 47, 112, 97, 114, 116>> ELSE <<116, 50>>,
      pads |-> IF IsPadSrc(c) THEN <<[len |-> PadSources[c.src], style |-> "p", total |-> 0]>> ELSE <<>>,
      lm |-> c.lm, filesafe |-> c.name \in FileSafe, ctx |-> Ctxs[c.c],
      expect |-> [ok |-> ref.ok, out |-> ref.out, err |-> ref.err]]
